@@ -1,1 +1,1115 @@
-//! C41: not implemented yet.
+//! C41 — PTP messages survive a serialise/parse round trip.
+//!
+//! Engine E-IN (exhaustive input enumeration, round trip + positional sweeps).
+//!
+//! Part A  (serialise => parse): every message of a finite grammar is built with the
+//!   library's own constructors (`Message`, `TlvSetBuilder`), serialised, parsed and
+//!   compared with `==`; the TLV iterators are compared with the list that was put in.
+//!     A1  10 body kinds x 4 headers x every TLV list of <= 3 TLVs over
+//!         {types} x value lengths {0, 2, 4, 3(odd)}
+//!     A2  every body variant (boundary values of every field, all 256 clock-accuracy /
+//!         time-source / action bytes) x header variants (all 4096 flag combinations,
+//!         all 4096 sdoIds x 10 kinds, all 256 versions, boundary values of the rest)
+//!         x 3 TLV lists
+//!     A3  size limits: TLV values that bring the message to 4096, 65534 and > 65535 bytes
+//!   also: serialising into every too-short buffer must be an error, and serialising
+//!   into a dirty buffer must give the same bytes as into a zeroed one.
+//! Part B  (parse => reserialise, parse is total): corpus = Part-A encodings + every
+//!   truncation + every single-byte substitution from a pattern set + length-field
+//!   edits (messageLength and every TLV lengthField) + long inputs up to 4096 bytes.
+//!   Accepted inputs must reserialise to input[..messageLength] when their reserved
+//!   bits are zero; otherwise the reserialisation must be a fixpoint (idempotence).
+//! Part C  value enumerations (`ClockAccuracy`, `TimeSource`, `ManagementAction`: all 256;
+//!   `TlvType`: all 65536), including the non-canonical payloads the public enums allow.
+extern crate std;
+use std::prelude::v1::*;
+use std::sync::atomic::{AtomicBool, Ordering};
+use std::{format, println, vec};
+
+use super::common::{self, Ctx};
+use crate::{
+    AnnounceMessage, ClockAccuracy, ClockIdentity, ClockQuality, DelayReqMessage, DelayRespMessage, Error,
+    FollowUpMessage, Header, ManagementAction, ManagementMessage, Message, MessageBody, PDelayReqMessage,
+    PDelayRespFollowUpMessage, PDelayRespMessage, PortIdentity, PtpVersion, SdoId, SignalingMessage, SyncMessage,
+    TimeInterval, TimeSource, Timestamp, Tlv, TlvSet, TlvSetBuilder, TlvType,
+};
+
+// ---------------------------------------------------------------------------------
+// grammar
+// ---------------------------------------------------------------------------------
+
+/// Header description (harness side, plain integers).
+#[derive(Clone, Copy, Debug, PartialEq, Eq, Hash)]
+struct H {
+    sdo: u16,
+    major: u8,
+    minor: u8,
+    domain: u8,
+    flags: u16, // bit i = i-th flag in the order of `Header`'s declaration
+    corr: i64,
+    clock: [u8; 8],
+    port: u16,
+    seq: u16,
+    logint: i8,
+}
+
+const H_BASE: H = H { sdo: 0, major: 2, minor: 1, domain: 0, flags: 0, corr: 0, clock: [0; 8], port: 0, seq: 0, logint: 0 };
+const H_CSPTP: H = H { sdo: 0x300, major: 2, minor: 1, domain: 128, flags: 0b100, corr: 0x1_0000, clock: [0; 8], port: 0, seq: 0x1234, logint: 0x7f };
+const H_MAX: H = H { sdo: 0xfff, major: 15, minor: 15, domain: 255, flags: 0xfff, corr: i64::MAX, clock: [0xff; 8], port: 0xffff, seq: 0xffff, logint: -1 };
+const H_MIX: H = H { sdo: 0x5bb, major: 1, minor: 0xa, domain: 0xaa, flags: 0b0101_0011_0101, corr: i64::MIN, clock: [1, 2, 3, 4, 5, 6, 7, 8], port: 0x5555, seq: 0xdead, logint: -128 };
+
+fn header_of(h: &H) -> Header {
+    let f = |i: u16| h.flags & (1 << i) != 0;
+    Header {
+        sdo_id: SdoId::try_from(h.sdo).unwrap(),
+        version: PtpVersion::new(h.major, h.minor).unwrap(),
+        domain_number: h.domain,
+        alternate_master_flag: f(0),
+        two_step_flag: f(1),
+        unicast_flag: f(2),
+        ptp_profile_specific_1: f(3),
+        ptp_profile_specific_2: f(4),
+        leap61: f(5),
+        leap59: f(6),
+        current_utc_offset_valid: f(7),
+        ptp_timescale: f(8),
+        time_tracable: f(9),
+        frequency_tracable: f(10),
+        synchronization_uncertain: f(11),
+        correction_field: TimeInterval(h.corr),
+        source_port_identity: PortIdentity { clock_identity: ClockIdentity(h.clock), port_number: h.port },
+        sequence_id: h.seq,
+        log_message_interval: h.logint,
+    }
+}
+
+const TS: [(u64, u32); 4] = [(0, 0), (1, 1), ((1 << 48) - 1, 999_999_999), (0x1234_5678_9abc, 500_000_000)];
+const PID: [([u8; 8], u16); 3] = [([0; 8], 0), ([0xff; 8], 0xffff), ([0x10, 0x20, 0x30, 0x40, 0x50, 0x60, 0x70, 0x80], 0x0102)];
+
+fn ts(i: usize) -> Timestamp {
+    Timestamp::new(TS[i].0, TS[i].1).unwrap()
+}
+fn pid(i: usize) -> PortIdentity {
+    PortIdentity { clock_identity: ClockIdentity(PID[i].0), port_number: PID[i].1 }
+}
+
+/// Announce body description.
+#[derive(Clone, Copy, Debug, PartialEq, Eq, Hash)]
+struct Ann {
+    ts: usize,
+    utc: i16,
+    p1: u8,
+    class: u8,
+    acc: u8, // primitive, canonicalised through from_primitive
+    var: u16,
+    p2: u8,
+    gm: usize,
+    steps: u16,
+    src: u8, // primitive
+}
+const ANN_BASE: Ann = Ann { ts: 0, utc: 0, p1: 0, class: 0, acc: 0xfe, var: 0, p2: 0, gm: 0, steps: 0, src: 0xa0 };
+const ANN_MAX: Ann = Ann { ts: 2, utc: i16::MIN, p1: 255, class: 255, acc: 0xfd, var: 0xffff, p2: 255, gm: 1, steps: 0xffff, src: 0xfe };
+
+#[derive(Clone, Copy, Debug, PartialEq, Eq, Hash)]
+enum B {
+    Sync(usize),
+    DelayReq(usize),
+    PDelayReq(usize),
+    PDelayResp(usize, usize),
+    FollowUp(usize),
+    DelayResp(usize, usize),
+    PDelayRespFollowUp(usize, usize),
+    Announce(Ann),
+    Signaling(usize),
+    Management(usize, u8, u8, u8), // target, starting hops, hops, action primitive
+}
+
+fn body_of(b: &B) -> MessageBody {
+    match *b {
+        B::Sync(t) => MessageBody::Sync(SyncMessage { origin_timestamp: ts(t) }),
+        B::DelayReq(t) => MessageBody::DelayReq(DelayReqMessage { origin_timestamp: ts(t) }),
+        B::PDelayReq(t) => MessageBody::PDelayReq(PDelayReqMessage { origin_timestamp: ts(t) }),
+        B::PDelayResp(t, p) => MessageBody::PDelayResp(PDelayRespMessage { request_receive_timestamp: ts(t), requesting_port_identity: pid(p) }),
+        B::FollowUp(t) => MessageBody::FollowUp(FollowUpMessage { precise_origin_timestamp: ts(t) }),
+        B::DelayResp(t, p) => MessageBody::DelayResp(DelayRespMessage { receive_timestamp: ts(t), requesting_port_identity: pid(p) }),
+        B::PDelayRespFollowUp(t, p) => MessageBody::PDelayRespFollowUp(PDelayRespFollowUpMessage { response_origin_timestamp: ts(t), requesting_port_identity: pid(p) }),
+        B::Announce(a) => MessageBody::Announce(AnnounceMessage {
+            origin_timestamp: ts(a.ts),
+            current_utc_offset: a.utc,
+            grandmaster_priority_1: a.p1,
+            grandmaster_clock_quality: ClockQuality { clock_class: a.class, clock_accuracy: ClockAccuracy::from_primitive(a.acc), offset_scaled_log_variance: a.var },
+            grandmaster_priority_2: a.p2,
+            grandmaster_identity: ClockIdentity(PID[a.gm].0),
+            steps_removed: a.steps,
+            time_source: TimeSource::from_primitive(a.src),
+        }),
+        B::Signaling(p) => MessageBody::Signaling(SignalingMessage { target_port_identity: pid(p) }),
+        B::Management(p, s, h, a) => MessageBody::Management(ManagementMessage { target_port_identity: pid(p), starting_boundary_hops: s, boundary_hops: h, action: ManagementAction::from_primitive(a) }),
+    }
+}
+
+fn body_size(b: &B) -> usize {
+    match b {
+        B::Sync(_) | B::DelayReq(_) | B::FollowUp(_) | B::Signaling(_) => 10,
+        B::PDelayReq(_) | B::PDelayResp(..) | B::DelayResp(..) | B::PDelayRespFollowUp(..) => 20,
+        B::Announce(_) => 30,
+        B::Management(..) => 14,
+    }
+}
+
+/// One representative body per kind (10 kinds).
+fn body_kinds() -> Vec<B> {
+    vec![
+        B::Sync(3),
+        B::DelayReq(3),
+        B::PDelayReq(3),
+        B::PDelayResp(3, 2),
+        B::FollowUp(3),
+        B::DelayResp(3, 2),
+        B::PDelayRespFollowUp(3, 2),
+        B::Announce(Ann { ts: 3, utc: 37, p1: 128, class: 248, acc: 0x21, var: 0x4e5d, p2: 127, gm: 2, steps: 3, src: 0x20 }),
+        B::Signaling(2),
+        B::Management(2, 4, 3, 2),
+    ]
+}
+
+/// Every body variant: boundary values of every field (one factor at a time around the
+/// base + the all-extreme value; all 256 values for the enumerated bytes).
+fn body_variants() -> Vec<B> {
+    let mut v = Vec::new();
+    for t in 0..TS.len() {
+        v.push(B::Sync(t));
+        v.push(B::DelayReq(t));
+        v.push(B::PDelayReq(t));
+        v.push(B::FollowUp(t));
+        for p in 0..PID.len() {
+            v.push(B::PDelayResp(t, p));
+            v.push(B::DelayResp(t, p));
+            v.push(B::PDelayRespFollowUp(t, p));
+        }
+    }
+    for p in 0..PID.len() {
+        v.push(B::Signaling(p));
+        for s in [0u8, 1, 255] {
+            for h in [0u8, 1, 255] {
+                for a in 0..=5u8 {
+                    v.push(B::Management(p, s, h, a));
+                }
+            }
+        }
+    }
+    v.push(B::Announce(ANN_BASE));
+    v.push(B::Announce(ANN_MAX));
+    for t in 0..TS.len() {
+        v.push(B::Announce(Ann { ts: t, ..ANN_BASE }));
+    }
+    for utc in [1, 37, -1, i16::MIN, i16::MAX, 0x0100] {
+        v.push(B::Announce(Ann { utc, ..ANN_BASE }));
+    }
+    for x in [1u8, 127, 128, 255] {
+        v.push(B::Announce(Ann { p1: x, ..ANN_BASE }));
+        v.push(B::Announce(Ann { p2: x, ..ANN_BASE }));
+        v.push(B::Announce(Ann { class: x, ..ANN_BASE }));
+    }
+    for x in 0..=255u8 {
+        // canonical representative of each byte (reserved values collapse in the library's
+        // enum; the *typed* message built from them is what Part A round-trips)
+        v.push(B::Announce(Ann { acc: x, ..ANN_BASE }));
+        v.push(B::Announce(Ann { src: x, ..ANN_BASE }));
+    }
+    for x in [1u16, 0x00ff, 0xff00, 0xffff, 0x4e5d] {
+        v.push(B::Announce(Ann { var: x, ..ANN_BASE }));
+        v.push(B::Announce(Ann { steps: x, ..ANN_BASE }));
+    }
+    for g in 0..PID.len() {
+        v.push(B::Announce(Ann { gm: g, ..ANN_BASE }));
+    }
+    v
+}
+
+fn header_variants(quick: bool) -> Vec<H> {
+    let mut v = vec![H_BASE, H_CSPTP, H_MAX, H_MIX];
+    for flags in 0..4096u16 {
+        v.push(H { flags, ..H_BASE });
+    }
+    for major in 0..16u8 {
+        for minor in 0..16u8 {
+            v.push(H { major, minor, ..H_BASE });
+        }
+    }
+    for domain in [1u8, 127, 128, 255] {
+        v.push(H { domain, ..H_BASE });
+    }
+    for corr in [1i64, -1, 0x1_0000, i64::MIN, i64::MAX, 0x0123_4567_89ab_cdef, -0x0123_4567_89ab_cdef] {
+        v.push(H { corr, ..H_BASE });
+    }
+    for (clock, port) in PID {
+        v.push(H { clock, port, ..H_BASE });
+    }
+    for seq in [1u16, 0x00ff, 0xff00, 0xffff] {
+        v.push(H { seq, ..H_BASE });
+    }
+    for logint in [1i8, -1, 127, -128] {
+        v.push(H { logint, ..H_BASE });
+    }
+    let step = if quick { 16 } else { 1 };
+    for sdo in (0..4096u16).step_by(step) {
+        v.push(H { sdo, ..H_BASE });
+    }
+    for sdo in [0x0ffu16, 0x100, 0xf00, 0xfff] {
+        v.push(H { sdo, ..H_BASE });
+    }
+    v
+}
+
+/// TLV description: type code + value.
+#[derive(Clone, Debug, PartialEq, Eq, Hash)]
+struct T {
+    ty: u16,
+    val: Vec<u8>,
+}
+
+const TLV_TYPES_QUICK: [u16; 4] = [0x0001, 0x0008, 0x4000, 0x8008];
+const TLV_TYPES_THOROUGH: [u16; 8] = [0x0001, 0x0008, 0x4000, 0x8008, 0x0000, 0x7f00, 0xff00, 0x2000];
+const TLV_LENS: [usize; 4] = [0, 2, 4, 3];
+
+fn tlv_alphabet(types: &[u16]) -> Vec<T> {
+    let mut v = Vec::new();
+    for &ty in types {
+        for &l in &TLV_LENS {
+            v.push(T { ty, val: (0..l).map(|i| 0xa1u8.wrapping_add(i as u8 * 0x11)).collect() });
+        }
+    }
+    v
+}
+
+/// Is this TLV type one that a boundary clock must propagate on Announce (IEEE 1588-2019
+/// 14.1.1 / table 52: PATH_TRACE, ALTERNATE_TIME_OFFSET_INDICATOR and 0x4000..=0x7fff).
+fn ref_propagate(ty: u16) -> bool {
+    ty == 0x0008 || ty == 0x0009 || (0x4000..=0x7fff).contains(&ty)
+}
+
+fn fmt_tlvs(tlvs: &[T]) -> String {
+    tlvs.iter()
+        .map(|t| {
+            // long constant values are run-length coded: "*<len>x<byte>"
+            if t.val.len() > 64 && t.val.iter().all(|b| *b == t.val[0]) {
+                format!("{:04x}:*{}x{:02x}", t.ty, t.val.len(), t.val[0])
+            } else {
+                format!("{:04x}:{}", t.ty, common::hex(&t.val))
+            }
+        })
+        .collect::<Vec<_>>()
+        .join(",")
+}
+
+fn parse_tlvs(s: &str) -> Option<Vec<T>> {
+    if s.is_empty() {
+        return Some(vec![]);
+    }
+    s.split(',')
+        .map(|p| {
+            let (a, b) = p.split_once(':')?;
+            let val = match b.strip_prefix('*') {
+                Some(rl) => {
+                    let (n, x) = rl.split_once('x')?;
+                    vec![u8::from_str_radix(x, 16).ok()?; n.parse().ok()?]
+                }
+                None => common::unhex(b)?,
+            };
+            Some(T { ty: u16::from_str_radix(a, 16).ok()?, val })
+        })
+        .collect()
+}
+
+// ---------------------------------------------------------------------------------
+// local statistics (flushed into Ctx in batches)
+// ---------------------------------------------------------------------------------
+
+#[derive(Default)]
+struct Stats {
+    c: std::collections::BTreeMap<&'static str, u64>,
+    distinct: Vec<u64>,
+}
+impl Stats {
+    fn inc(&mut self, k: &'static str) {
+        *self.c.entry(k).or_insert(0) += 1;
+    }
+    fn add(&mut self, k: &'static str, n: u64) {
+        *self.c.entry(k).or_insert(0) += n;
+    }
+    fn flush(&mut self, ctx: &Ctx) {
+        for (k, v) in std::mem::take(&mut self.c) {
+            ctx.add(k, v);
+        }
+        ctx.distinct_many(std::mem::take(&mut self.distinct));
+    }
+}
+
+static RESERVED_REPORTED: AtomicBool = AtomicBool::new(false);
+
+// ---------------------------------------------------------------------------------
+// Part A: serialise => parse
+// ---------------------------------------------------------------------------------
+
+fn tlv_list_of(set: &TlvSet<'_>) -> Vec<T> {
+    set.tlvs()
+        .map(|t| {
+            let v: &[u8] = t.value.as_ref();
+            T { ty: t.tlv_type.to_primitive(), val: v.to_vec() }
+        })
+        .collect()
+}
+
+/// Round trip of one grammar message. Returns a one-line observation (for replay).
+fn check_roundtrip(ctx: &Ctx, st: &mut Stats, h: &H, b: &B, tlvs: &[T]) -> String {
+    let trace = || format!("A;{};{};{}", fmt_h(h), fmt_b(b), fmt_tlvs(tlvs));
+    st.inc("evaluations");
+    st.inc("a_messages");
+    let tlv_bytes: usize = tlvs.iter().map(|t| 4 + t.val.len()).sum();
+    let mut tlv_buf = vec![0u8; tlv_bytes];
+    let mut builder = TlvSetBuilder::new(&mut tlv_buf);
+    for t in tlvs {
+        let tlv = Tlv { tlv_type: TlvType::from_primitive(t.ty), value: (&t.val[..]).into() };
+        match common::catch(|| builder.add(&tlv)) {
+            Ok(Ok(())) => {}
+            Ok(Err(e)) => {
+                if t.val.len() % 2 == 1 {
+                    // an implementation may refuse what its parser would reject
+                    st.inc("a_builder_refused_odd");
+                } else if t.val.len() <= 0xffff {
+                    ctx.violation("C41:builder-rejects", format!("TlvSetBuilder::add refused a {}-byte value with room in the buffer: {e:?}", t.val.len()), trace());
+                }
+                st.inc("a_builder_refused");
+                return format!("builder refused: {e:?}");
+            }
+            Err(p) => {
+                ctx.violation("C41:serialize-panic", format!("TlvSetBuilder::add panicked: {p}"), trace());
+                return format!("builder panic: {p}");
+            }
+        }
+    }
+    let suffix = builder.build();
+    let has_odd = tlvs.iter().any(|t| t.val.len() % 2 == 1);
+    let trailing_empty = tlvs.last().is_some_and(|t| t.val.is_empty());
+
+    // the TLV iterators must give back what was put in
+    match common::catch(|| tlv_list_of(&suffix)) {
+        Ok(got) => {
+            if got != tlvs {
+                let class = if trailing_empty && got[..] == tlvs[..tlvs.len() - 1] { "C41:tlv-empty-trailing" } else { "C41:tlv-iteration" };
+                ctx.violation(class, format!("TlvSet::tlvs() of the built set yields [{}], built from [{}]", fmt_tlvs(&got), fmt_tlvs(tlvs)), trace());
+                st.inc("a_iter_mismatch");
+            }
+        }
+        Err(p) => ctx.violation("C41:tlv-iteration-panic", format!("tlvs() panicked: {p}"), trace()),
+    }
+    if let Ok(got) = common::catch(|| suffix.announce_propagate_tlvs().map(|t| t.tlv_type.to_primitive()).collect::<Vec<_>>()) {
+        let want: Vec<u16> = tlvs.iter().map(|t| t.ty).filter(|t| ref_propagate(*t)).collect();
+        let want_cut: Vec<u16> = if trailing_empty { tlvs[..tlvs.len() - 1].iter().map(|t| t.ty).filter(|t| ref_propagate(*t)).collect() } else { want.clone() };
+        if got != want {
+            let class = if got == want_cut { "C41:tlv-empty-trailing" } else { "C41:tlv-propagate-filter" };
+            ctx.violation(class, format!("announce_propagate_tlvs() yields types {got:04x?}, expected {want:04x?}"), trace());
+        }
+    }
+
+    let msg = Message { header: header_of(h), body: body_of(b), suffix };
+    let total = 34 + body_size(b) + tlv_bytes;
+    let wire = msg.wire_size();
+    if wire != total {
+        ctx.violation("C41:wire-size", format!("wire_size() = {wire}, fields add up to {total}"), trace());
+    }
+    let mut buf = vec![0u8; total];
+    let n = match common::catch(|| msg.serialize(&mut buf)) {
+        Ok(Ok(n)) => n,
+        Ok(Err(e)) => {
+            if total <= 0xffff {
+                ctx.violation("C41:serialize-rejects", format!("serialize of a {total}-byte message into a {total}-byte buffer failed: {e:?}"), trace());
+            }
+            st.inc("a_serialize_refused");
+            return format!("serialize refused: {e:?}");
+        }
+        Err(p) => {
+            ctx.violation("C41:serialize-panic", format!("serialize panicked: {p}"), trace());
+            return format!("serialize panic: {p}");
+        }
+    };
+    if total > 0xffff {
+        ctx.violation("C41:serialize-oversize", format!("a {total}-byte message (> 65535) was serialised, messageLength cannot hold it"), trace());
+    }
+    if n != total {
+        ctx.violation("C41:wire-size", format!("serialize returned {n}, fields add up to {total}"), trace());
+    }
+    // same bytes into a dirty, larger buffer
+    let mut stale: Option<usize> = None;
+    let mut dirty = vec![0xa5u8; total + 7];
+    match common::catch(|| msg.serialize(&mut dirty)) {
+        Ok(Ok(m)) if m == n => {
+            if dirty[..n] != buf[..n] {
+                let pos = (0..n).find(|i| dirty[*i] != buf[*i]).unwrap();
+                ctx.violation(
+                    "C41:serialize-leaves-stale-bytes",
+                    format!("serialize leaves byte {pos} (body offset {}) of the output buffer unwritten: the encoding depends on the buffer's previous content", pos as i64 - 34),
+                    trace(),
+                );
+                st.inc("a_stale_bytes");
+                stale = Some(pos);
+            }
+            if dirty[n..].iter().any(|x| *x != 0xa5) {
+                ctx.violation("C41:serialize-overrun", "serialize wrote past the length it reported", trace());
+            }
+        }
+        other => ctx.violation("C41:serialize-rejects", format!("serialize into a larger dirty buffer: {other:?}, into an exact zeroed one Ok({n})"), trace()),
+    }
+    // every too-short buffer is an error, not a panic (boundaries only for big messages)
+    let shorts: Vec<usize> = if total <= 128 { (0..total).collect() } else { vec![0, 1, 33, 34, 34 + body_size(b) - 1, 34 + body_size(b), total - 1] };
+    for k in shorts {
+        let mut small = vec![0u8; k];
+        st.inc("evaluations");
+        match common::catch(|| msg.serialize(&mut small)) {
+            Ok(Err(_)) => st.inc("a_short_buffer_refused"),
+            Ok(Ok(m)) => ctx.violation("C41:serialize-short-buffer", format!("serialize into {k} bytes returned Ok({m}) for a {total}-byte message"), trace()),
+            Err(p) => ctx.violation("C41:serialize-panic", format!("serialize into a {k}-byte buffer panicked: {p}"), trace()),
+        }
+    }
+
+    // parse back (also with trailing padding after messageLength, which must be ignored)
+    let mut padded = buf[..n].to_vec();
+    padded.extend_from_slice(&[0xee, 0xee, 0xee]);
+    let mut obs = String::new();
+    if let Some(p) = stale {
+        obs.push_str(&format!("stale-byte@{p} "));
+    }
+    for (label, input) in [("exact", &buf[..n]), ("padded", &padded[..])] {
+        match common::catch(|| Message::deserialize(input)) {
+            Ok(Ok(back)) => {
+                if back != msg {
+                    ctx.violation("C41:roundtrip-mismatch", format!("parse(serialize(m)) != m ({label}): got {back:?}"), trace());
+                    st.inc("a_mismatch");
+                } else {
+                    st.inc("a_roundtrip_ok");
+                    let got = tlv_list_of(&back.suffix);
+                    if got != tlvs {
+                        ctx.violation("C41:tlv-iteration", format!("tlvs() of the parsed message yields [{}], sent [{}]", fmt_tlvs(&got), fmt_tlvs(tlvs)), trace());
+                    }
+                }
+                obs.push_str(&format!("{label}:ok "));
+            }
+            Ok(Err(e)) => {
+                let class = match e {
+                    Error::Invalid if has_odd => "C41:tlv-odd-length-serialised",
+                    Error::BufferTooShort if trailing_empty => "C41:tlv-empty-trailing",
+                    _ => "C41:roundtrip-parse-error",
+                };
+                ctx.violation(class, format!("serialize succeeded ({n} bytes) but parse ({label}) fails with {e:?}; tlvs [{}]", fmt_tlvs(tlvs)), trace());
+                st.inc("a_parse_rejects_own_encoding");
+                obs.push_str(&format!("{label}:{e:?} "));
+            }
+            Err(p) => {
+                ctx.violation("C41:parse-panic", format!("parse of own encoding panicked: {p}"), trace());
+                obs.push_str("panic ");
+            }
+        }
+    }
+    st.distinct.push(common::hash_of(&buf));
+    obs
+}
+
+fn fmt_h(h: &H) -> String {
+    format!("{:x}.{:x}.{:x}.{:x}.{:x}.{:x}.{}.{:x}.{:x}.{:x}", h.sdo, h.major, h.minor, h.domain, h.flags, h.corr as u64, common::hex(&h.clock), h.port, h.seq, h.logint as u8)
+}
+fn parse_h(s: &str) -> Option<H> {
+    let p: Vec<&str> = s.split('.').collect();
+    if p.len() != 10 {
+        return None;
+    }
+    let x = |i: usize| u64::from_str_radix(p[i], 16).ok();
+    let clock: [u8; 8] = common::unhex(p[6])?.try_into().ok()?;
+    Some(H { sdo: x(0)? as u16, major: x(1)? as u8, minor: x(2)? as u8, domain: x(3)? as u8, flags: x(4)? as u16, corr: x(5)? as i64, clock, port: x(7)? as u16, seq: x(8)? as u16, logint: x(9)? as u8 as i8 })
+}
+fn fmt_b(b: &B) -> String {
+    match *b {
+        B::Sync(t) => format!("sync.{t}"),
+        B::DelayReq(t) => format!("dreq.{t}"),
+        B::PDelayReq(t) => format!("pdreq.{t}"),
+        B::PDelayResp(t, p) => format!("pdresp.{t}.{p}"),
+        B::FollowUp(t) => format!("fup.{t}"),
+        B::DelayResp(t, p) => format!("dresp.{t}.{p}"),
+        B::PDelayRespFollowUp(t, p) => format!("pdfup.{t}.{p}"),
+        B::Announce(a) => format!("ann.{}.{}.{}.{}.{}.{}.{}.{}.{}.{}", a.ts, a.utc, a.p1, a.class, a.acc, a.var, a.p2, a.gm, a.steps, a.src),
+        B::Signaling(p) => format!("sig.{p}"),
+        B::Management(p, s, h, a) => format!("mgmt.{p}.{s}.{h}.{a}"),
+    }
+}
+fn parse_b(s: &str) -> Option<B> {
+    let p: Vec<&str> = s.split('.').collect();
+    let n = |i: usize| -> Option<i64> { p.get(i)?.parse::<i64>().ok() };
+    let t = |i: usize| -> Option<usize> { n(i).map(|v| v as usize).filter(|v| *v < TS.len()) };
+    let q = |i: usize| -> Option<usize> { n(i).map(|v| v as usize).filter(|v| *v < PID.len()) };
+    Some(match p[0] {
+        "sync" => B::Sync(t(1)?),
+        "dreq" => B::DelayReq(t(1)?),
+        "pdreq" => B::PDelayReq(t(1)?),
+        "pdresp" => B::PDelayResp(t(1)?, q(2)?),
+        "fup" => B::FollowUp(t(1)?),
+        "dresp" => B::DelayResp(t(1)?, q(2)?),
+        "pdfup" => B::PDelayRespFollowUp(t(1)?, q(2)?),
+        "ann" => B::Announce(Ann { ts: t(1)?, utc: n(2)? as i16, p1: n(3)? as u8, class: n(4)? as u8, acc: n(5)? as u8, var: n(6)? as u16, p2: n(7)? as u8, gm: q(8)?, steps: n(9)? as u16, src: n(10)? as u8 }),
+        "sig" => B::Signaling(q(1)?),
+        "mgmt" => B::Management(q(1)?, n(2)? as u8, n(3)? as u8, n(4)? as u8),
+        _ => return None,
+    })
+}
+
+/// All TLV lists of length <= k over the alphabet (as index vectors).
+fn tlv_lists(alpha: usize, k: usize) -> Vec<Vec<usize>> {
+    let mut out = vec![vec![]];
+    for len in 1..=k {
+        for w in common::product(alpha, len) {
+            out.push(w);
+        }
+    }
+    out
+}
+
+// ---------------------------------------------------------------------------------
+// Part B: parse => reserialise; parse is total
+// ---------------------------------------------------------------------------------
+
+/// Does the (accepted) message prefix `x` carry a non-zero bit in a position the library
+/// documents as not represented (reserved bits / reserved bytes / reserved enumeration
+/// values)? Positions follow the library's own layout.
+fn has_reserved(x: &[u8]) -> bool {
+    if x.len() < 34 {
+        return false;
+    }
+    if x[6] & 0b1001_1000 != 0 || x[7] & 0x80 != 0 || x[16..20] != [0; 4] || x[32] != 0 {
+        return true;
+    }
+    let body = &x[34..];
+    match x[0] & 0x0f {
+        0x2 => body.len() >= 20 && body[10..20] != [0; 10],
+        0xb => body.len() >= 30 && (body[12] != 0 || matches!(body[15], 0x01..=0x16 | 0x32..=0x7f | 0xff)),
+        0xd => body.len() >= 14 && (body[10] != 0 || body[13] > 5),
+        _ => false,
+    }
+}
+
+fn check_parse(ctx: &Ctx, st: &mut Stats, x: &[u8]) -> String {
+    st.inc("evaluations");
+    st.inc("b_inputs");
+    let trace = || format!("B;{}", common::hex(x));
+    let m = match common::catch(|| Message::deserialize(x)) {
+        Ok(Ok(m)) => m,
+        Ok(Err(Error::BufferTooShort)) => {
+            st.inc("b_rejected_short");
+            return "Err(BufferTooShort)".into();
+        }
+        Ok(Err(Error::Invalid)) => {
+            st.inc("b_rejected_invalid");
+            return "Err(Invalid)".into();
+        }
+        Err(p) => {
+            ctx.violation("C41:parse-panic", format!("Message::deserialize panicked on {} bytes: {p}", x.len()), trace());
+            return format!("panic {p}");
+        }
+    };
+    st.inc("b_accepted");
+    let len = u16::from_be_bytes([x[2], x[3]]) as usize;
+    if len > x.len() || len < 34 {
+        ctx.violation("C41:parse-accepts-bad-length", format!("accepted with messageLength {len} on a {}-byte input", x.len()), trace());
+        return "accepted-bad-length".into();
+    }
+    // the iterators must walk the accepted suffix without panicking and cover it exactly
+    match common::catch(|| tlv_list_of(&m.suffix)) {
+        Ok(l) => {
+            st.add("b_tlvs_iterated", l.len() as u64);
+            let covered: usize = l.iter().map(|t| 4 + t.val.len()).sum();
+            if covered != m.suffix.wire_size() {
+                ctx.violation("C41:tlv-iteration", format!("tlvs() covers {covered} of the {} accepted suffix bytes", m.suffix.wire_size()), trace());
+            }
+        }
+        Err(p) => ctx.violation("C41:tlv-iteration-panic", format!("tlvs() on an accepted message panicked: {p}"), trace()),
+    }
+    let mut out = vec![0u8; len + 8];
+    let n = match common::catch(|| m.serialize(&mut out)) {
+        Ok(Ok(n)) => n,
+        Ok(Err(e)) => {
+            ctx.violation("C41:reserialize-error", format!("accepted message does not serialise: {e:?}"), trace());
+            return format!("reserialize {e:?}");
+        }
+        Err(p) => {
+            ctx.violation("C41:reserialize-panic", format!("serialize of an accepted message panicked: {p}"), trace());
+            return format!("reserialize panic {p}");
+        }
+    };
+    if n != len {
+        ctx.violation("C41:reserialize-length", format!("reserialised to {n} bytes, messageLength of the input is {len}"), trace());
+        return format!("reserialize len {n} != {len}");
+    }
+    if out[..n] == x[..len] {
+        st.inc("b_reserialize_exact");
+        st.distinct.push(common::hash_of(&x));
+        return format!("ok exact {n}");
+    }
+    let pos = (0..n).find(|i| out[*i] != x[*i]).unwrap();
+    if has_reserved(&x[..len]) {
+        st.inc("b_reserved_dropped");
+        // idempotence: the canonicalised encoding is a fixpoint
+        match common::catch(|| Message::deserialize(&out[..n]).map(|m2| (m2 == m, {
+            let mut o2 = vec![0u8; n + 8];
+            let r = m2.serialize(&mut o2);
+            (r.ok(), o2)
+        }))) {
+            Ok(Ok((same, (Some(n2), o2)))) if same && n2 == n && o2[..n] == out[..n] => {}
+            other => ctx.violation("C41:reserialize-not-idempotent", format!("canonicalised encoding is not a fixpoint: {:?}", other.map(|r| r.map(|(s, (n2, _))| (s, n2)))), trace()),
+        }
+        if !RESERVED_REPORTED.swap(true, Ordering::Relaxed) {
+            ctx.violation(
+                "C41:reserved-bits-not-preserved",
+                format!("accepted input with a non-zero reserved bit/byte/value reserialises differently at byte {pos} (0x{:02x} -> 0x{:02x}); the library drops reserved fields (reported once, see stat b_reserved_dropped)", x[pos], out[pos]),
+                trace(),
+            );
+        }
+        st.distinct.push(common::hash_of(&x));
+        return format!("reserved dropped at {pos}");
+    }
+    ctx.violation("C41:reserialize-mismatch", format!("accepted input (no reserved bits set) reserialises differently at byte {pos}: 0x{:02x} -> 0x{:02x}", x[pos], out[pos]), trace());
+    format!("mismatch at {pos}")
+}
+
+/// Offsets of the TLV length fields of a library encoding (walk by the *intended* list).
+fn tlv_len_offsets(body: usize, tlvs: &[T]) -> Vec<usize> {
+    let mut v = Vec::new();
+    let mut o = 34 + body;
+    for t in tlvs {
+        v.push(o + 2);
+        o += 4 + t.val.len();
+    }
+    v
+}
+
+/// Run the whole mutation neighbourhood of one base encoding.
+fn sweep_base(ctx: &Ctx, st: &mut Stats, base: &[u8], len_offsets: &[usize], full_positions: bool) {
+    st.inc("b_bases");
+    check_parse(ctx, st, base);
+    // every truncation
+    for k in 0..base.len() {
+        check_parse(ctx, st, &base[..k]);
+    }
+    // extension with trailing bytes
+    for extra in [1usize, 2, 4] {
+        let mut x = base.to_vec();
+        x.extend(std::iter::repeat(0u8).take(extra));
+        check_parse(ctx, st, &x);
+    }
+    // every single-byte substitution from the pattern set
+    let mut x = base.to_vec();
+    let positions: Vec<usize> = if full_positions || base.len() <= 256 {
+        (0..base.len()).collect()
+    } else {
+        // long inputs: header + body + first and last 64 bytes + every 16th byte
+        (0..base.len()).filter(|i| *i < 128 || *i + 64 >= base.len() || i % 16 == 0).collect()
+    };
+    for &i in &positions {
+        let orig = base[i];
+        for pat in [0x00u8, 0x01, 0x02, 0x7f, 0x80, 0xff, orig ^ 0x01, orig ^ 0x80, orig.wrapping_add(1), orig.wrapping_sub(1), orig ^ 0x08, orig ^ 0x10] {
+            if pat == orig {
+                continue;
+            }
+            x[i] = pat;
+            check_parse(ctx, st, &x);
+        }
+        x[i] = orig;
+    }
+    // messageLength edits
+    let l = base.len() as u16;
+    for v in [0u16, 1, 33, 34, 35, 43, 44, 45, l.wrapping_sub(4), l.wrapping_sub(3), l.wrapping_sub(2), l.wrapping_sub(1), l + 1, l + 2, l + 4, 0x7fff, 0x8000, 0xffff] {
+        if base.len() >= 4 {
+            x[2..4].copy_from_slice(&v.to_be_bytes());
+            check_parse(ctx, st, &x);
+        }
+    }
+    if base.len() >= 4 {
+        x[2..4].copy_from_slice(&base[2..4]);
+    }
+    // TLV lengthField edits
+    for &o in len_offsets {
+        if o + 2 > base.len() {
+            continue;
+        }
+        let cur = u16::from_be_bytes([base[o], base[o + 1]]);
+        let rest = (base.len() - (o + 2)) as u16;
+        for v in [0u16, 1, 2, 3, 4, cur.wrapping_add(1), cur.wrapping_add(2), cur.wrapping_sub(1), cur.wrapping_sub(2), rest, rest.wrapping_sub(1), rest.wrapping_sub(2), rest.wrapping_sub(4), rest + 1, rest + 2, 0xfffe, 0xffff] {
+            if v == cur {
+                continue;
+            }
+            x[o..o + 2].copy_from_slice(&v.to_be_bytes());
+            check_parse(ctx, st, &x);
+        }
+        x[o..o + 2].copy_from_slice(&base[o..o + 2]);
+    }
+}
+
+/// Library encoding of a grammar message, or None when the library refuses it.
+fn encode(h: &H, b: &B, tlvs: &[T]) -> Option<Vec<u8>> {
+    let tlv_bytes: usize = tlvs.iter().map(|t| 4 + t.val.len()).sum();
+    let mut tlv_buf = vec![0u8; tlv_bytes];
+    let mut builder = TlvSetBuilder::new(&mut tlv_buf);
+    for t in tlvs {
+        builder.add(&Tlv { tlv_type: TlvType::from_primitive(t.ty), value: (&t.val[..]).into() }).ok()?;
+    }
+    let msg = Message { header: header_of(h), body: body_of(b), suffix: builder.build() };
+    let mut buf = vec![0u8; 34 + body_size(b) + tlv_bytes];
+    let n = common::catch(|| msg.serialize(&mut buf)).ok()?.ok()?;
+    buf.truncate(n);
+    Some(buf)
+}
+
+// ---------------------------------------------------------------------------------
+// Part C: value enumerations
+// ---------------------------------------------------------------------------------
+
+fn part_c(ctx: &Ctx) {
+    let mut st = Stats::default();
+    // canonical direction: to(from(x)) == x except where the enum collapses reserved values
+    for x in 0..=255u8 {
+        st.inc("evaluations");
+        st.inc("c_values");
+        let a = ClockAccuracy::from_primitive(x);
+        let back = a.to_primitive();
+        let reserved = matches!(x, 0x00..=0x16 | 0x32..=0x7f | 0xff);
+        if (reserved && back != 0) || (!reserved && back != x) || ClockAccuracy::from_primitive(back) != a {
+            ctx.violation("C41:enum-codec", format!("ClockAccuracy 0x{x:02x} -> {a:?} -> 0x{back:02x}"), format!("C;acc;{x}"));
+        }
+        let s = TimeSource::from_primitive(x);
+        if s.to_primitive() != x || TimeSource::from_primitive(s.to_primitive()) != s {
+            ctx.violation("C41:enum-codec", format!("TimeSource 0x{x:02x} -> {s:?} -> 0x{:02x}", s.to_primitive()), format!("C;src;{x}"));
+        }
+        let m = ManagementAction::from_primitive(x);
+        let mb = m.to_primitive();
+        if (x <= 5 && mb != x) || (x > 5 && mb != 5) || ManagementAction::from_primitive(mb) != m {
+            ctx.violation("C41:enum-codec", format!("ManagementAction 0x{x:02x} -> {m:?} -> 0x{mb:02x}"), format!("C;act;{x}"));
+        }
+    }
+    for x in 0..=0xffffu16 {
+        st.inc("evaluations");
+        st.inc("c_values");
+        let t = TlvType::from_primitive(x);
+        if t.to_primitive() != x || TlvType::from_primitive(t.to_primitive()) != t {
+            ctx.violation("C41:enum-codec", format!("TlvType 0x{x:04x} -> {t:?} -> 0x{:04x}", t.to_primitive()), format!("C;tlv;{x}"));
+        }
+        if t.announce_propagate() != ref_propagate(x) {
+            ctx.violation("C41:tlv-propagate-filter", format!("TlvType 0x{x:04x}: announce_propagate() = {}, table 52 says {}", t.announce_propagate(), ref_propagate(x)), format!("C;tlv;{x}"));
+        }
+    }
+    // non-canonical payloads of the public enums: values the type system lets a caller
+    // build, the library serialises without complaint, and that parse back to something else
+    for v in 0..=255u8 {
+        noncanonical(ctx, &mut st, "accp", v as u16);
+        noncanonical(ctx, &mut st, "srcp", v as u16);
+        noncanonical(ctx, &mut st, "srcr", v as u16);
+    }
+    for v in 0..=0xffffu16 {
+        noncanonical(ctx, &mut st, "tlvr", v);
+        noncanonical(ctx, &mut st, "tlvl", v);
+        noncanonical(ctx, &mut st, "tlve", v);
+    }
+    st.flush(ctx);
+}
+
+/// One typed value with an arbitrary payload, sent through a whole message round trip.
+fn noncanonical(ctx: &Ctx, st: &mut Stats, kind: &'static str, v: u16) -> String {
+    st.inc("evaluations");
+    st.inc("c_payloads");
+    let trace = format!("C;{kind};{v}");
+    let base = match body_of(&B::Announce(ANN_BASE)) {
+        MessageBody::Announce(a) => a,
+        _ => unreachable!(),
+    };
+    let mut tlv_buf = [0u8; 8];
+    let (body, tlv): (MessageBody, Option<TlvType>) = match kind {
+        "accp" => (MessageBody::Announce(AnnounceMessage { grandmaster_clock_quality: ClockQuality { clock_accuracy: ClockAccuracy::ProfileSpecific(v as u8), ..base.grandmaster_clock_quality }, ..base }), None),
+        "srcp" => (MessageBody::Announce(AnnounceMessage { time_source: TimeSource::ProfileSpecific(v as u8), ..base }), None),
+        "srcr" => (MessageBody::Announce(AnnounceMessage { time_source: TimeSource::Reserved(v as u8), ..base }), None),
+        "tlvr" => (MessageBody::Announce(base), Some(TlvType::Reserved(v))),
+        "tlvl" => (MessageBody::Announce(base), Some(TlvType::Legacy(v))),
+        _ => (MessageBody::Announce(base), Some(TlvType::Experimental(v))),
+    };
+    let r = common::catch(|| {
+        let mut builder = TlvSetBuilder::new(&mut tlv_buf);
+        if let Some(t) = tlv {
+            builder.add(&Tlv { tlv_type: t, value: (&[0x11u8, 0x22][..]).into() }).unwrap();
+        }
+        let msg = Message { header: header_of(&H_BASE), body: body.clone(), suffix: builder.build() };
+        let mut buf = [0u8; 80];
+        let n = msg.serialize(&mut buf)?;
+        let back = Message::deserialize(&buf[..n])?;
+        let tl = back.suffix.tlvs().next().map(|t| t.tlv_type);
+        let shown = match &back.body {
+            MessageBody::Announce(a) => format!("accuracy {:?}, time source {:?}", a.grandmaster_clock_quality.clock_accuracy, a.time_source),
+            other => format!("{other:?}"),
+        };
+        Ok::<_, Error>((back.body == body, tl == tlv, shown))
+    });
+    match r {
+        Ok(Ok((true, true, _))) => {
+            st.inc("c_payload_roundtrips");
+            "ok".into()
+        }
+        Ok(Ok((true, false, _))) => {
+            // the message itself (header, body, suffix *bytes*) is equal; only the typed view
+            // of the TLV differs because the builder already wrote the canonical code
+            st.inc("c_tlvtype_payload_recanonicalised");
+            "tlv type recanonicalised".into()
+        }
+        Ok(Ok((_, _, got))) => {
+            st.inc("c_payload_changes");
+            ctx.violation(
+                "C41:noncanonical-enum-payload",
+                format!("{kind} payload 0x{v:x}: serialises without error but parses back as a different value ({got})"),
+                trace,
+            );
+            format!("changed: {got}")
+        }
+        Ok(Err(e)) => {
+            st.inc("c_payload_refused");
+            format!("refused {e:?}")
+        }
+        Err(p) => {
+            ctx.violation("C41:serialize-panic", format!("{kind} payload 0x{v:x}: {p}"), trace);
+            format!("panic {p}")
+        }
+    }
+}
+
+// ---------------------------------------------------------------------------------
+// replay + check
+// ---------------------------------------------------------------------------------
+
+fn replay(ctx: &Ctx, trace: &str) -> String {
+    let mut st = Stats::default();
+    let parts: Vec<&str> = trace.split(';').collect();
+    match parts.first().copied() {
+        Some("A") if parts.len() >= 4 => match (parse_h(parts[1]), parse_b(parts[2]), parse_tlvs(parts[3])) {
+            (Some(h), Some(b), Some(t)) => check_roundtrip(ctx, &mut st, &h, &b, &t),
+            _ => "unparsable A trace".into(),
+        },
+        Some("B") if parts.len() >= 2 => match common::unhex(parts[1]) {
+            Some(x) => {
+                RESERVED_REPORTED.store(false, Ordering::Relaxed);
+                check_parse(ctx, &mut st, &x)
+            }
+            None => "unparsable B trace".into(),
+        },
+        Some("C") if parts.len() >= 3 => {
+            let v: u16 = parts[2].parse().unwrap_or(0);
+            let kind: &'static str = match parts[1] {
+                "accp" => "accp",
+                "srcp" => "srcp",
+                "srcr" => "srcr",
+                "tlvr" => "tlvr",
+                "tlvl" => "tlvl",
+                "tlve" => "tlve",
+                _ => return "C value traces are replayed by the full enumeration only".into(),
+            };
+            noncanonical(ctx, &mut st, kind, v)
+        }
+        _ => "unknown trace".into(),
+    }
+}
+
+#[test]
+fn check() {
+    let ctx = Ctx::new("C41");
+    if let Some(t) = common::replay_trace() {
+        let a = replay(&ctx, &t);
+        let b = replay(&ctx, &t);
+        common::report_replay("C41", &a, &b, ctx.violation_count() > 0);
+        return;
+    }
+    let quick = ctx.quick();
+    ctx.rule(
+        "A1: 10 body kinds x 4 headers x every TLV list of <=3 TLVs over {4 quick / 8 thorough type codes incl. propagate and \
+         non-propagate} x value length {0,2,4,3} (thorough: + every list of exactly 4 TLVs over the 16-TLV alphabet x 10 kinds); A2: every body variant (boundary values of each field, all 256 accuracy / \
+         time-source bytes, all action values) x every header variant (4096 flag sets, 256 versions, sdoIds, boundary values) \
+         x 3 TLV lists, built with the library's constructors, serialised, parsed, compared with ==; A3: 4096 / 65534 / >65535 \
+         byte messages. B: each base encoding + every truncation + every position x 12 byte patterns + 18 messageLength edits + \
+         17 edits of every TLV lengthField, plus 4 KiB inputs; C: all 256 / 65536 values of the enumerations and their \
+         non-canonical payloads. Non-trivial & distinct = a distinct serialised message (A) or a distinct *accepted* byte string (B).",
+    );
+    ctx.assume("derived PartialEq of Message/Header/bodies and slice equality of TlvSet are trusted as the notion of 'equal message'");
+    ctx.assume("field positions are taken as the library defines them (round trip property); conformance of the layout with IEEE 1588 is not part of C41");
+    ctx.assume("byte strings are a grammar neighbourhood (truncations, 12 substitutions per position, length edits), not all strings up to 4096 bytes");
+
+    // ---- Part A ----
+    let kinds = body_kinds();
+    let heads4 = [H_BASE, H_CSPTP, H_MAX, H_MIX];
+    let alpha = tlv_alphabet(if quick { &TLV_TYPES_QUICK } else { &TLV_TYPES_THOROUGH });
+    let lists = tlv_lists(alpha.len(), 3);
+    ctx.set("a1_tlv_lists", lists.len() as u64);
+    // A1
+    common::par_for(lists.len() as u64, 64, |li| {
+        let mut st = Stats::default();
+        let tl: Vec<T> = lists[li as usize].iter().map(|i| alpha[*i].clone()).collect();
+        for b in &kinds {
+            for h in &heads4 {
+                check_roundtrip(&ctx, &mut st, h, b, &tl);
+            }
+        }
+        st.flush(&ctx);
+    });
+    ctx.sample(format!("A1: {} TLV lists x 10 kinds x 4 headers; e.g. [{}]", lists.len(), fmt_tlvs(&lists[lists.len() / 2].iter().map(|i| alpha[*i].clone()).collect::<Vec<_>>())));
+    // A1b (thorough): every TLV list of exactly 4 TLVs over the 16-TLV quick alphabet
+    if !quick {
+        let alpha4 = tlv_alphabet(&TLV_TYPES_QUICK);
+        let n4 = common::pow(alpha4.len(), 4);
+        ctx.set("a1b_tlv_lists_len4", n4);
+        common::par_for(n4, 256, |li| {
+            let mut st = Stats::default();
+            let tl: Vec<T> = common::word_of(li, alpha4.len(), 4).iter().map(|i| alpha4[*i].clone()).collect();
+            for b in &kinds {
+                check_roundtrip(&ctx, &mut st, &H_CSPTP, b, &tl);
+            }
+            st.flush(&ctx);
+        });
+    }
+    // A2
+    let bodies = body_variants();
+    let heads = header_variants(quick);
+    ctx.set("a2_body_variants", bodies.len() as u64);
+    ctx.set("a2_header_variants", heads.len() as u64);
+    let three: Vec<Vec<T>> = vec![vec![], vec![alpha[1].clone()], vec![alpha[5].clone(), alpha[2].clone()]];
+    common::par_for(heads.len() as u64, 16, |hi| {
+        let mut st = Stats::default();
+        let h = &heads[hi as usize];
+        // all body variants against the 4 fixed headers is done below; here every header
+        // variant against the 10 kinds
+        for b in &kinds {
+            for tl in &three {
+                check_roundtrip(&ctx, &mut st, h, b, tl);
+            }
+        }
+        st.flush(&ctx);
+    });
+    common::par_for(bodies.len() as u64, 16, |bi| {
+        let mut st = Stats::default();
+        let b = &bodies[bi as usize];
+        for h in &heads4 {
+            for tl in &three {
+                check_roundtrip(&ctx, &mut st, h, b, tl);
+            }
+        }
+        st.flush(&ctx);
+    });
+    // A3: size limits
+    {
+        let mut st = Stats::default();
+        let b = B::Sync(1);
+        for vlen in [4096 - 44 - 4, 4096 - 44 - 4 - 4, 65534 - 44 - 4, 65535 - 44 - 4, 65536 - 44 - 4, 65535, 65534] {
+            let big = T { ty: 0x8008, val: vec![0x5a; vlen] };
+            check_roundtrip(&ctx, &mut st, &H_CSPTP, &b, std::slice::from_ref(&big));
+            // and followed by an empty one
+            check_roundtrip(&ctx, &mut st, &H_CSPTP, &b, &[big.clone(), T { ty: 0x0008, val: vec![] }, T { ty: 0x0001, val: vec![1, 2] }]);
+        }
+        st.flush(&ctx);
+    }
+
+    // ---- Part B ----
+    // bases: every kind x headers x TLV lists (<=2 over the alphabet; <=3 over a 4-TLV sub-alphabet)
+    let lists2 = tlv_lists(alpha.len(), 2);
+    let small_alpha: Vec<T> = vec![alpha[0].clone(), alpha[1].clone(), alpha[2].clone(), alpha[7].clone()];
+    let lists3 = tlv_lists(small_alpha.len(), 3);
+    let b_heads: Vec<H> = if quick { vec![H_CSPTP, H_MIX] } else { vec![H_BASE, H_CSPTP, H_MAX, H_MIX] };
+    let mut bases: Vec<(usize, H, Vec<T>)> = Vec::new();
+    for (k, _) in kinds.iter().enumerate() {
+        for h in &b_heads {
+            for l in &lists2 {
+                bases.push((k, *h, l.iter().map(|i| alpha[*i].clone()).collect()));
+            }
+            for l in lists3.iter().filter(|l| l.len() == 3) {
+                bases.push((k, *h, l.iter().map(|i| small_alpha[*i].clone()).collect()));
+            }
+        }
+    }
+    ctx.set("b_base_specs", bases.len() as u64);
+    common::par_for(bases.len() as u64, 8, |i| {
+        let mut st = Stats::default();
+        let (k, h, tl) = &bases[i as usize];
+        match encode(h, &kinds[*k], tl) {
+            Some(e) => sweep_base(&ctx, &mut st, &e, &tlv_len_offsets(body_size(&kinds[*k]), tl), true),
+            None => st.inc("b_base_not_encodable"),
+        }
+        st.flush(&ctx);
+    });
+    // long inputs (up to 4096 bytes): one big TLV, 1000 empty TLVs, 500 two-byte TLVs
+    {
+        let long_specs: Vec<(usize, Vec<T>)> = vec![
+            (0, vec![T { ty: 0x8008, val: vec![0x33; 4096 - 44 - 4] }]),
+            (7, vec![T { ty: 0x0008, val: vec![0x44; 4000] }, T { ty: 0x0001, val: vec![] }, T { ty: 0x4000, val: vec![9, 9] }]),
+            (0, (0..1000).map(|i| T { ty: if i % 2 == 0 { 0x8008 } else { 0x0008 }, val: vec![] }).chain(std::iter::once(T { ty: 1, val: vec![7, 7] })).collect()),
+            (9, (0..600).map(|i| T { ty: 0x4000 + (i as u16 % 3), val: vec![i as u8, 0] }).collect()),
+        ];
+        common::par_for(long_specs.len() as u64, 1, |i| {
+            let mut st = Stats::default();
+            let (k, tl) = &long_specs[i as usize];
+            if let Some(e) = encode(&H_CSPTP, &kinds[*k], tl) {
+                st.inc("b_long_bases");
+                let offs = tlv_len_offsets(body_size(&kinds[*k]), tl);
+                let offs: Vec<usize> = offs.iter().copied().filter(|o| *o < 200 || *o + 40 > e.len()).collect();
+                sweep_base(&ctx, &mut st, &e, &offs, !quick);
+            }
+            st.flush(&ctx);
+        });
+        // raw fills of every length 0..=4096 (quick: 0..=128 and 4000..=4096)
+        let fills = [0x00u8, 0xff, 0x0b, 0x12, 0x02];
+        let lens: Vec<usize> = if quick { (0..=128).chain(4000..=4096).collect() } else { (0..=4096).collect() };
+        common::par_for(lens.len() as u64, 32, |i| {
+            let mut st = Stats::default();
+            for f in fills {
+                let x = vec![f; lens[i as usize]];
+                check_parse(&ctx, &mut st, &x);
+                // make the fill a plausible header: type nibble + version 2 + length = len
+                let mut y = x.clone();
+                if y.len() >= 4 {
+                    y[0] = f & 0x0f;
+                    y[1] = 0x12;
+                    let l = (y.len() as u16).to_be_bytes();
+                    y[2..4].copy_from_slice(&l);
+                    check_parse(&ctx, &mut st, &y);
+                }
+            }
+            st.flush(&ctx);
+        });
+    }
+    // targeted: nanosecond field at and above 10^9 in every timestamp-bearing kind
+    {
+        let mut st = Stats::default();
+        for (k, b) in kinds.iter().enumerate() {
+            if let Some(mut e) = encode(&H_CSPTP, b, &[]) {
+                if matches!(b, B::Signaling(_) | B::Management(..)) {
+                    continue;
+                }
+                for nanos in [999_999_999u32, 1_000_000_000, 1_000_000_001, u32::MAX] {
+                    e[40..44].copy_from_slice(&nanos.to_be_bytes());
+                    let r = check_parse(&ctx, &mut st, &e);
+                    if nanos == 1_000_000_000 && r.starts_with("ok") {
+                        st.inc("b_accepted_nanos_equal_1e9");
+                    }
+                }
+            }
+        }
+        st.flush(&ctx);
+    }
+
+    // ---- Part C ----
+    part_c(&ctx);
+
+    ctx.sample(format!(
+        "A: {} messages, {} round-tripped; B: {} inputs, {} accepted ({} exact, {} with reserved bits), rejected short {} / invalid {}",
+        ctx.get("a_messages"), ctx.get("a_roundtrip_ok") / 2, ctx.get("b_inputs"), ctx.get("b_accepted"), ctx.get("b_reserialize_exact"),
+        ctx.get("b_reserved_dropped"), ctx.get("b_rejected_short"), ctx.get("b_rejected_invalid")
+    ));
+    ctx.exhaustive(true);
+    ctx.finish();
+}
